@@ -2,7 +2,7 @@
 import os, subprocess, time
 from lib import vf, srv
 
-EXTRA_BINS = ("dcat", "dtail")
+EXTRA_BINS = ("dcat", "dtail", "dgrep")
 
 ID = "C13"
 PROP_FILE = "Props/C13.v"
@@ -63,6 +63,9 @@ def generate(rng, tier):
     # server is sending) must not keep the only cat slot: the next read has to run
     cases.append({"bb": "cancel", "cats": 1, "maxlen": 16})
     cases.append({"bb": "cancel", "cats": 1, "maxlen": 1048576})
+    # a grep whose output is almost only trailing context / leading context of far-apart matches, cancelled the same way
+    cases.append({"bb": "cancel", "cats": 1, "maxlen": 1048576, "grep": ["--regex", "L000000 ", "--after", "599000"]})
+    cases.append({"bb": "cancel", "cats": 1, "maxlen": 1048576, "grep": ["--regex", "L0[0-5]0000 ", "--before", "900", "--after", "900"]})
     return cases
 
 
@@ -79,8 +82,8 @@ def _cancelled(c, k):
     env.client("dcat", ["--plain", "--files", small], servers=[s], timeout=30)      # records the host key
     results = []
     for r in range(2):
-        cmd = [os.path.join(srv.BIN, "dcat"), "--cfg", "none", "--servers", "127.0.0.1:%d" % s.port, "--trustAllHosts", "--key", env.key,
-               "--user", "root", "--plain", "--files", big]
+        cmd = [os.path.join(srv.BIN, "dgrep" if c.get("grep") else "dcat"), "--cfg", "none", "--servers", "127.0.0.1:%d" % s.port, "--trustAllHosts",
+               "--key", env.key, "--user", "root", "--plain", "--files", big] + list(c.get("grep") or [])
         p = subprocess.Popen(cmd, stdin=subprocess.DEVNULL, stdout=subprocess.PIPE, stderr=subprocess.DEVNULL, env=env.client_env(), cwd=env.dir)
         p.stdout.read(4096)
         time.sleep(1.5)        # the client stalls: the SSH window fills, the server stops being read, its queues fill up
